@@ -64,7 +64,9 @@ def prove_laws(run):
     wd = tempfile.mkdtemp(prefix="sptlaps_")
     try:
         shutil.copy(os.path.join(SPEC_DIR, "AlgebraProofs.tla"), wd)
-        r = subprocess.run(["timeout", "600", "tlapm", "--cleanfp", "AlgebraProofs.tla"], cwd=wd, stdout=subprocess.PIPE, stderr=subprocess.STDOUT, text=True)
+        # (the proof manager's parser unpacks the standard modules into java.io.tmpdir: keep that inside the scratch directory)
+        env = dict(os.environ, TMPDIR=wd, JAVA_TOOL_OPTIONS=("-Djava.io.tmpdir=%s " % wd + os.environ.get("JAVA_TOOL_OPTIONS", "")).strip())
+        r = subprocess.run(["timeout", "600", "tlapm", "--cleanfp", "AlgebraProofs.tla"], cwd=wd, env=env, stdout=subprocess.PIPE, stderr=subprocess.STDOUT, text=True)
     finally:
         shutil.rmtree(wd, ignore_errors=True)
     m = re.search(r"All (\d+) obligations proved", r.stdout)
